@@ -97,6 +97,11 @@ def for_type(t, tier, cfg):
     ma = [(f"glam::{sc}::math::mul_add", f"crate::uf_fma{sfx}")]
     H("mul_add", [("v", "a"), ("v", "b"), ("v", "c")], lanes_assert(t, f"{T}::mul_add", "a.mul_add(b, c)", lambda i: f"crate::uf_fma{sfx}(a{i}, b{i}, c{i})"), "sat", extra_stubs=ma,
       desc=f"{T}::mul_add lane == fused-multiply-add shim (uninterpreted) of that lane's operands")
+    hs[-1].fallback = f"c01_{t.lname}_mul_add_interp"
+    # interpreted twin: only decided when the uninterpreted harness fails and its model does not reproduce (counterexample search)
+    H("mul_add_interp", [("v", "a"), ("v", "b"), ("v", "c")], lanes_assert(t, f"{T}::mul_add", "a.mul_add(b, c)", lambda i: f"a{i}.mul_add(b{i}, c{i})"), "sat",
+      site=f"{T}::mul_add", desc=f"{T}::mul_add vs primitive mul_add, interpreted (counterexample search only)")
+    hs[-1].on_demand = True
     de = [(f"glam::{sc}::math::div_euclid", f"crate::uf_div_euclid{sfx}"), (f"glam::{sc}::math::rem_euclid", f"crate::uf_rem_euclid{sfx}")]
     H("div_euclid", [("v", "a"), ("v", "b")], lanes_assert(t, f"{T}::div_euclid", "a.div_euclid(b)", lambda i: f"crate::uf_div_euclid{sfx}(a{i}, b{i})"), "sat", extra_stubs=de)
     H("rem_euclid", [("v", "a"), ("v", "b")], lanes_assert(t, f"{T}::rem_euclid", "a.rem_euclid(b)", lambda i: f"crate::uf_rem_euclid{sfx}(a{i}, b{i})"), "sat", extra_stubs=de)
